@@ -120,7 +120,14 @@ pub enum TimerSpec {
     /// overdue by ago_ms (0..=40) when the measured dispatch starts; its callback returns
     /// TimeoutAction::ToDuration(period_ms) the first time (then Drop): after firing (late) it is armed for
     /// "fire time + period", which is what a follow-up dispatch has to wait for
-    Periodic { ago_ms: u8, period_ms: u8 },
+    /// `self_remove`: the same callback also removes the timer through LoopHandle::remove(own token) before returning
+    /// ToDuration(period): nothing is armed afterwards, a follow-up dispatch must not be limited by it
+    Periodic {
+        ago_ms: u8,
+        period_ms: u8,
+        #[serde(default)]
+        self_remove: bool,
+    },
 }
 
 #[derive(Serialize, Deserialize, Debug, Clone, Copy, Hash, PartialEq, Eq)]
@@ -280,7 +287,7 @@ pub fn normalise(c: &Case) -> Case {
             TimerSpec::RemovedOverdue { ago_ms } => TimerSpec::RemovedOverdue { ago_ms: ago_ms.min(40) },
             TimerSpec::Disabled { ms } => TimerSpec::Disabled { ms: ms.clamp(-40, 40) },
             TimerSpec::Rearmed { old_ms, new_ms, from } => TimerSpec::Rearmed { old_ms: if from == 1 { 0 } else { old_ms.clamp(-40, 40) }, new_ms: new_ms.clamp(-40, 40), from: from.min(2) },
-            TimerSpec::Periodic { ago_ms, period_ms } => TimerSpec::Periodic { ago_ms: ago_ms.min(40), period_ms: period_ms.clamp(5, 40) },
+            TimerSpec::Periodic { ago_ms, period_ms, self_remove } => TimerSpec::Periodic { ago_ms: ago_ms.min(40), period_ms: period_ms.clamp(5, 40), self_remove },
             o => o,
         };
     }
@@ -335,7 +342,7 @@ fn timer_strategy() -> impl Strategy<Value = TimerSpec> {
         2 => (0u8..=40).prop_map(|ago_ms| TimerSpec::RemovedOverdue { ago_ms }),
         2 => (-40i8..=40).prop_map(|ms| TimerSpec::Disabled { ms }),
         4 => (-40i8..=40, -40i8..=40, prop_oneof![3 => Just(0u8), 1 => Just(1u8), 1 => Just(2u8)]).prop_map(|(old_ms, new_ms, from)| TimerSpec::Rearmed { old_ms, new_ms, from }),
-        3 => (0u8..=40, 5u8..=40).prop_map(|(ago_ms, period_ms)| TimerSpec::Periodic { ago_ms, period_ms }),
+        3 => (0u8..=40, 5u8..=40, prop::bool::weighted(0.35)).prop_map(|(ago_ms, period_ms, self_remove)| TimerSpec::Periodic { ago_ms, period_ms, self_remove }),
     ];
     prop_oneof![15 => armed, 13 => history]
 }
@@ -803,14 +810,24 @@ fn run_once(c: &Case) -> Obs {
             TimerSpec::Periodic { period_ms, .. } => Some(Duration::from_millis(period_ms as u64)),
             _ => None,
         };
+        let own_tok: std::rc::Rc<std::cell::Cell<Option<calloop::RegistrationToken>>> = Default::default();
+        let own_tok2 = own_tok.clone();
+        let self_remove = matches!(*spec, TimerSpec::Periodic { self_remove: true, .. });
+        let weak = h.downgrade();
         let disp = calloop::Dispatcher::new(timer, move |_, _, t: &mut Trace| {
             t.push(Src::Timer(i));
+            if self_remove {
+                if let (Some(tok), Some(h)) = (own_tok2.take(), weak.upgrade()) {
+                    h.remove(tok);
+                }
+            }
             match period.take() {
                 Some(p) => TimeoutAction::ToDuration(p),
                 None => TimeoutAction::Drop,
             }
         });
         let tok = h.register_dispatcher(disp.clone()).expect("insert timer");
+        own_tok.set(Some(tok));
         match *spec {
             // removed / disabled / re-armed after all timers are in the heap (so that the entry is not
             // necessarily the top)
@@ -973,6 +990,7 @@ fn judge(c: &Case, o: &Obs) -> Judgement {
             TimerSpec::Never => "timer:never",
             TimerSpec::Removed { .. } => "timer:removed",
             TimerSpec::RemovedOverdue { .. } => "timer:removed_overdue",
+            TimerSpec::Periodic { self_remove: true, .. } => "timer:overdue_self_removing_and_rearming_by_duration",
             TimerSpec::Periodic { .. } => "timer:overdue_rearming_by_duration",
             TimerSpec::Disabled { ms } if ms <= 0 => "timer:disabled_overdue",
             TimerSpec::Disabled { .. } => "timer:disabled",
@@ -1078,7 +1096,7 @@ fn judge(c: &Case, o: &Obs) -> Judgement {
         if let Src::Timer(i) = src {
             // second firing of a periodic timer: its deadline is (first callback instant + period) or later
             let rearmed = match c.timers.get(*i) {
-                Some(TimerSpec::Periodic { period_ms, .. }) if n >= o.trace.len() => {
+                Some(TimerSpec::Periodic { period_ms, self_remove: false, .. }) if n >= o.trace.len() => {
                     o.trace.iter().find(|(s, _)| *s == Src::Timer(*i)).map(|(_, at)| *at + Duration::from_millis(*period_ms as u64))
                 }
                 _ => None,
@@ -1306,7 +1324,7 @@ fn judge(c: &Case, o: &Obs) -> Judgement {
                 o.deadlines.iter().enumerate().filter_map(|(i, d)| d.map(|d| (i, d))).filter(|(i, _)| !fired(*i)).collect();
             // a periodic timer that fired in the first dispatch re-armed itself for (callback instant + period) or later
             for (i, t) in c.timers.iter().enumerate() {
-                if let TimerSpec::Periodic { period_ms, .. } = t {
+                if let TimerSpec::Periodic { period_ms, self_remove: false, .. } = t {
                     if let Some((_, at)) = o.trace.iter().find(|(s, _)| *s == Src::Timer(i)) {
                         live2.push((i, *at + Duration::from_millis(*period_ms as u64)));
                     }
@@ -1495,7 +1513,7 @@ fn cross_product(include_long_waits: bool) -> Vec<Case> {
             Tmo::Ms(7) => 3,
             _ => 9,
         };
-        let relations: [Vec<TimerSpec>; 16] = [
+        let relations: [Vec<TimerSpec>; 17] = [
             vec![],
             vec![TimerSpec::Expired { ago_ms: 2 }],
             vec![TimerSpec::At { ms: earlier_ms }],
@@ -1516,12 +1534,14 @@ fn cross_product(include_long_waits: bool) -> Vec<Case> {
             // a timer without any deadline (created so / pushed there) that is given a near one by set_deadline + update
             vec![TimerSpec::Far, TimerSpec::Rearmed { old_ms: 0, new_ms: 8, from: 1 }],
             vec![TimerSpec::Rearmed { old_ms: 5, new_ms: 12, from: 2 }],
+            // an overdue timer whose callback removes the timer and still asks for a re-arming
+            vec![TimerSpec::Far, TimerSpec::Periodic { ago_ms: 2, period_ms: 6, self_remove: true }],
             vec![TimerSpec::AtLate],
         ];
         for timers in relations {
             for k in 0..=ALL_IDLE.len() {
                 let idle = if k == 0 { vec![] } else { vec![ALL_IDLE[k - 1]] };
-                let follow = if timers.iter().any(|t| matches!(t, TimerSpec::RemovedOverdue { .. } | TimerSpec::Disabled { .. } | TimerSpec::Rearmed { .. })) {
+                let follow = if timers.iter().any(|t| matches!(t, TimerSpec::RemovedOverdue { .. } | TimerSpec::Disabled { .. } | TimerSpec::Rearmed { .. } | TimerSpec::Periodic { .. })) {
                     Some(15)
                 } else {
                     None
